@@ -1,8 +1,27 @@
 #!/bin/sh
-# Build everything the checks need, offline, from files on disk.
+# Build everything the registered checks need, offline, from files on disk.
+# Only the Coq targets of properties claimed in MANIFEST.json are built here (work in progress on
+# other properties may sit in the tree); every ./check rebuilds what it needs anyway.
 set -e
 cd "$(dirname "$0")"
 export CARGO_NET_OFFLINE=true RUSTC_BOOTSTRAP=1
-./mk
+TARGETS=$(python3 - <<'PY'
+import json, os
+m = json.load(open("MANIFEST.json"))
+t = []
+for c in m["checks"]:
+    p = c["property_id"]
+    for f in ("theories/Props/%s.v" % p, "theories/Extract/%sx.v" % p):
+        if os.path.exists(os.path.join("coq", f)):
+            t.append(f[:-2] + ".vo")
+print(" ".join(t))
+PY
+)
+./mk $TARGETS
 ( cd harness && RUSTFLAGS="--cfg mech_lang_mech_verif" CARGO_TARGET_DIR=/verif/.cache/target timeout 3000 cargo build --offline --quiet )
+for d in harness20; do
+  if [ -f "$d/Cargo.toml" ] && grep -q '"C20"' MANIFEST.json; then
+    ( cd $d && RUSTFLAGS="--cfg mech_lang_mech_verif" timeout 3000 cargo build --offline --quiet ) || true
+  fi
+done
 echo setup ok
